@@ -87,6 +87,76 @@ CLAIMS.update({
     '(enum_accepts_iff, enum_stored_upper); ~450 INI texts (string and file) read back through every getter against Model/Config.v; option effects end to end; file_path; missing mapping path.',
     note='Two genuine defects repaired (fix: 94fd825, 5381a3d). ConfigParser syntax / interpolation not modelled.', technique='Coq proof over regenerated tables + differential correspondence of the configuration getters', ref='7 C19'),
 })
+# --- entries superseding the ones above (theorems landed)
+CLAIMS.update({
+ 'C01': dict(
+    text='Proof (Coq) + correspondence. Theorems (Props/C01.v, all axiom-free): the null filter is exact; str.join inverts str.split; the engine regex and the R2RML template parser read every well-formed template alike; '
+         '_materialize_template (split at the first {ref}, append, continue) computes substitution of the transformed values and touches no data column; the term built for a constant / reference / template is the '
+         'term of the generation rules (IRI-safe encoding, canonical form, ECHAR escaping, delimiters) and is missing exactly where they give none; one row through one rule gives exactly the rule\'s statement '
+         '(subject, predicate, object, language / datatype, graph); a whole rule over the preprocessed frame gives exactly the statements of the generation rules for its rows -- for every rule, row, frame and configuration. '
+         'The hypotheses are the complements of recorded findings (template escapes, reserved column names, unescaped constant text). Joins, quoted maps and functions have their own theorems (C07, C13, C14); their '
+         'composition and the normalisation from files are decided on every run by comparing the implementation with BOTH the extracted Engine model and the extracted Spec on generated mappings x tables.',
+    note='Trusted: Coq kernel, extraction + driver, the translator, Model/Spec.v as the reading of the generation rules, the pandas / rdflib behaviour the Engine model transcribes (measured by the correspondence). '
+         'Not proved: Engine = Spec for joins composed with quoted maps and nested executions.',
+    technique='Coq proofs (template loop = substitution; engine term/row/rule = generation rules) + ' + CORR, ref='0.3 C01'),
+ 'C03': dict(
+    text='Proof (Coq) + correspondence. Theorems: the sort-and-scan of the partitioner separates two rules at a position only if their invariants are prefix-incomparable (prefix_scan_separates_incomparable, '
+         'equality_scan_separates_different, blank_nodes_apart, on the sorted input the code produces: partitioner_input_sorted), and rules so separated can never generate the same term, for ALL rows: '
+         'incomparable_invariants_never_collide, different_constants_never_collide, blank_node_never_equals_iri_or_literal, literal_types_never_collide. Correspondence: the groups of the real partitioner '
+         '(PARTIAL-AGGREGATIONS, MAXIMAL) are compared with the model labels and every separated pair is checked against the criterion; CLI runs are checked for duplicate lines and the reported total.',
+    note='Known finding: with N-TRIPLES output rules differing only in their graph map are separated (refuted witness in Findings/C03.v). Escape-free templates assumed by the collision theorems.',
+    technique='Coq proof (scan separates only incomparable keys; incomparable keys never collide) + differential check of the real partition', ref='0.3 C03'),
+ 'C06': dict(
+    text='Proof (Coq) + correspondence. Theorems: _preprocess_data keeps exactly the rows with no NULL and no na_values token in a referenced column (null_suppresses_exactly, null_in_referenced_column, '
+         'na_token_in_referenced_column) and no null is ever cast to text (null_never_becomes_text), for every frame, reference set and na_values list. What each reader hands over for a NULL is modelled '
+         '(Model/Data.v arrive) and measured on every run over all source kinds x na_values settings x NULL positions, against the Engine model and the Spec, plus a scan of the output for null words not in the data.',
+    note='Two genuine defects found by this check were repaired (fix: 52bd578, ecec88a). Readers are third-party: modelled, not verified.',
+    technique='Coq proof of the null filter + ' + CORR, ref='0.3 C06'),
+ 'C07': dict(
+    text='Proof (Coq) + correspondence. Theorems: _merge_data yields exactly the pairs (child row, parent row) that agree on every join condition with non-null values -- the inner equi-join -- for all frames '
+         '(merge_is_inner_equijoin), and the rows the Spec joins are the same relation (spec_join_rows). Correspondence: pandas merge on generated keys (duplicates, NULLs, separator-ambiguous values, 1-3 conditions, '
+         'self-joins with permuted conditions) against the Engine model and the Spec.',
+    note='Known finding: self-join elimination (NULL / non-unique key), refuted witness in Findings/C07.v.', technique='Coq proof (inner equi-join) + ' + CORR, ref='0.3 C07'),
+ 'C08': dict(
+    text='Proof (Coq) + correspondence. Theorems over the normalisation chain and the row tail of the materializer: a predicate-object map is placed in exactly its own and the subject map\'s graphs '
+         '(pom_gets_exactly_its_graphs), the default graph iff none or rml:defaultGraph (default_graph_iff_none, default_graph_has_empty_component), class statements follow the subject graphs, N-TRIPLES output is the '
+         'graph-less projection (ntriples_is_graphless). Correspondence: 0-3 constant / template / reference graph maps, NULL graph values, both formats, against the Engine model and the Spec.',
+    note='Known finding shared with C14: function-valued graph map under N-TRIPLES.', technique='Coq proof (graph placement) + ' + CORR, ref='0.3 C08'),
+ 'C09': dict(
+    text='Proof (Coq) + correspondence. The model\'s abstract syntax identifies vocabularies and constant shortcuts; inside it the three factorings the property names are theorems on the normalisation chain, for every '
+         'document: classes as rdf:type predicate-object maps (classes_as_type_poms), subject graph maps repeated on every predicate-object map (subject_graphs_on_every_pom), the fully explicit spelling '
+         '(explicit_spelling), multi-valued against split predicate-object maps (multi_valued_as_split, for documents without mixed maps; refuted for a mixed one in Findings/C09.v) -- identical rule tables. '
+         'Vocabulary (R2RML / RML / legacy), shortcuts, serialisations (Turtle, shuffled N-Triples, RDF/XML, prefixes, base, blank-node labels, extension) are compared pairwise on the implementation for every generated mapping.',
+    note='rdflib parsers, SPARQL and the vocabulary rewrites are outside the Coq model (correspondence only). YARRRML is not rendered by the harness: not covered.',
+    technique='Coq proof (normalisation invariant under the factorings) + differential check over spellings', ref='0.3 C09'),
+ 'C11': dict(
+    text='Proof (Coq) + correspondence. Theorems: for a plain rule the engine over a frame is the concatenation of a function of each row (engine_is_rowwise), hence additive over unions of row sets (rows_additive) and '
+         'insensitive to duplicates and order (duplicates_and_order_irrelevant); _preprocess_data is additive and has set semantics (preprocess_additive, preprocess_set_semantics). Correspondence: whole vs halves vs '
+         'permuted + duplicated tables for string and typed sources, typed cases also against the reader model (column coercion, binary64 rounding).',
+    note='Known finding: column dtype coercion (10 -> 10.0 next to NULL / float), refuted witness in Findings/C11.v.', technique='Coq proof (row-wise engine) + differential check over row splits', ref='0.3 C11'),
+ 'C12': dict(
+    text='Proof (Coq), partial + correspondence. Engine-level theorems for RDF-star-free rule tables: a rule\'s statements depend on the rest of the table only through the parent rule it names '
+         '(rule_depends_only_on_its_references_partial); a table made of two reference-closed parts yields the union of their results and fails iff one fails (document_is_union_of_parts_partial); renumbering the rules '
+         'and rewriting parent references changes nothing (rule_numbering_is_irrelevant_partial). Correspondence: every document against every dependency-closed layout over files and sections, reordering, '
+         'the union of components run alone, and the rejection of an identifier repeated across sections.',
+    note='Partial: quoted maps, rdflib graph merging and validate_mappings are decided by the correspondence only. Genuine defect repaired (fix: c61aea7).',
+    technique='Coq proof (union over closed parts, renaming invariance) + differential check over document layouts', ref='0.3 C12'),
+ 'C13': dict(
+    text='Proof (Coq), partial + correspondence. Theorems: any pipeline of row-wise frame stages is one function of the row (frame_pipeline_is_rowwise); for a quoted triples map in subject position over the same rows, '
+         'every statement is << t >> p o [g] with t exactly the triple the generation rules give the quoted map for that row, and none iff a part is missing (quoted_subject_embeds_the_quoted_triple_partial, '
+         'quoted_rule_statements_partial); only asserted rules contribute and assertedness is inherited from the triples map (only_asserted_rules_contribute, rules_inherit_assertedness). '
+         'Correspondence: nestings of depth 1-3, subject / object / both, joins, asserted / non-asserted, NULLs, against the Engine model and the (depth-recursive) Spec.',
+    note='Partial: quoted objects, joins and deeper nestings by correspondence only. Known finding: repeated joins on one frame fail.',
+    technique='Coq proof (quoted subject embeds the quoted triple) + ' + CORR, ref='0.3 C13'),
+ 'C14': dict(
+    text='Proof (Coq), partial + correspondence. Theorems: _materialize_fnml_template substitutes the raw row values (fnml_template_is_substitution); for an execution over constants, references and templates the values '
+         'for a row are exactly the function applied to that row\'s arguments -- none for a null result or null token, one per element of a list result, failure iff the function raises '
+         '(execution_is_function_application_partial); a rule with a function-valued map does not depend on the other rules (execution_rule_independent_of_other_rules; partition independence is C02); contracts of '
+         'split_explode / reverse / toUpperCase for all strings. Correspondence: compositions of 8 built-ins (parameters REGENERATED from bif_dict) and 5 UDFs, nested executions, all positions, three modes, '
+         'and each modelled built-in against the real function.',
+    note='Partial: nested executions by correspondence only. Two genuine defects repaired (fix: 07bcd78, 8a50972). Known findings: function-valued graph map under N-TRIPLES, rule without references.',
+    technique='Coq proof (execution = function application per row) + ' + CORR + ' + built-in contract oracle', ref='0.3 C14'),
+})
 NOT_YET = {}
 
 def main():
